@@ -227,3 +227,13 @@ def run(ctx):
     if ap:
         names = sorted({c.short.rsplit('::', 1)[-1] for c in ap.calls() if not c.cleanup and c.matches(UB + 'GenericUnstableBlocks::get_*')})
         ctx.check(set(names) >= {'get_added_outpoints', 'get_removed_outpoints', 'get_tx_out'}, 'R4', 'apply_block-sources', ap, 'apply_block uses the same three accessors', 'apply_block accessors: %s' % names)
+
+
+# plumbing between the interface and the analysed functions (rules/plumbing.py)
+_run_before_plumbing = run
+
+
+def run(ctx):
+    _run_before_plumbing(ctx)
+    from rules import plumbing
+    plumbing.request_conversions(ctx, 'R3')
